@@ -56,6 +56,7 @@ type env struct {
 	dialMu    sync.Mutex
 	dials     map[string]map[string]bool // proxy name -> every address its dialer was left with (after --connect-to)
 	scripts   sync.Map // case id -> *script
+	rigNotes  sync.Map // case id -> string: the rig did not carry out the script of the case (rigFailed)
 	used      sync.Map // proxy name -> true: the instances the batch went through
 	targets   map[string]string // virtual port -> real address (for the upstream proxy's tunnels)
 	routes    []forwarder.HostPortPair // the --connect-to rules of every proxy instance
@@ -127,7 +128,7 @@ func (e *env) serveOrigin(pc *rig.PeerConn) {
 			continue
 		}
 		sc := v.(*script)
-		if !e.play(pc, sc.reply, sc.k, sc.reset) || sc.eof {
+		if !e.play(pc, id, sc.reply, sc.k, sc.reset) || sc.eof {
 			if sc.fin {
 				pc.Close() // a TLS peer ends with close_notify
 			}
@@ -136,9 +137,22 @@ func (e *env) serveOrigin(pc *rig.PeerConn) {
 	}
 }
 
+// drainWait bounds the wait of a scripted peer for its bytes to be taken before it resets the connection.
+const drainWait = 8 * time.Second
+
+// rigFailed records that the rig could not carry out the script of a case: the case is not judged.
+func (e *env) rigFailed(id, what string) {
+	if id != "" {
+		e.rigNotes.LoadOrStore(id, what)
+	}
+}
+
 // play writes b[:k] and then ends the connection by FIN or RST; k < 0 writes everything and keeps
-// the connection. It reports whether the connection is still usable.
-func (e *env) play(pc *rig.PeerConn, b []byte, k int, reset bool) bool {
+// the connection. It reports whether the connection is still usable. The end is byte-driven: a reset
+// goes out only when the peer's TCP has every byte of b[:k] (rig.Drain), so that "k bytes, then RST"
+// is what happens however slowly the other side reads; if that cannot be arranged within drainWait
+// the script was not performed and the case (id) is marked so.
+func (e *env) play(pc *rig.PeerConn, id string, b []byte, k int, reset bool) bool {
 	if k < 0 {
 		_, err := pc.Write(b)
 		return err == nil
@@ -150,7 +164,10 @@ func (e *env) play(pc *rig.PeerConn, b []byte, k int, reset bool) bool {
 		pc.Write(b[:k])
 	}
 	if reset {
-		// let the bytes be read first: a reset may discard what is still queued at the receiver
+		// the bytes first: a reset discards what is still in the send queue
+		if k > 0 && !rig.Drain(pc.Conn, drainWait) {
+			e.rigFailed(id, fmt.Sprintf("origin: %d of the %d bytes before the reset still unsent after %v", rig.SendQueue(pc.Conn), k, drainWait))
+		}
 		time.Sleep(25 * time.Millisecond)
 		pc.Abort()
 	} else {
@@ -175,7 +192,7 @@ func (e *env) serveUpstream(pc *rig.PeerConn) {
 				continue
 			}
 			sc := v.(*script)
-			if !e.play(pc, sc.reply, sc.k, sc.reset) || sc.eof {
+			if !e.play(pc, id, sc.reply, sc.k, sc.reset) || sc.eof {
 				if sc.fin {
 					pc.Close()
 				}
@@ -193,13 +210,13 @@ func (e *env) serveUpstream(pc *rig.PeerConn) {
 				time.Sleep(4 * time.Second)
 				return
 			}
-			e.play(pc, sc.creply, sc.ck, sc.creset)
+			e.play(pc, id, sc.creply, sc.ck, sc.creset)
 			if sc.ctunnel && sc.ck < 0 && replyIs2xx(sc.creply) {
 				// the reply, however odd, says the tunnel stands: behave like it
 				_, port, _ := net.SplitHostPort(req.Target)
 				if addr, ok := e.targets[port]; ok {
 					if back, err := net.DialTimeout("tcp", addr, 2*time.Second); err == nil {
-						pipe(pc, back)
+						e.pipe(pc, back, id)
 						return
 					}
 				}
@@ -222,19 +239,23 @@ func (e *env) serveUpstream(pc *rig.PeerConn) {
 			return
 		}
 		pc.Write([]byte("HTTP/1.1 200 OK\r\n\r\n"))
-		pipe(pc, back)
+		e.pipe(pc, back, id)
 		return
 	}
 }
 
-// pipe relays both directions and propagates how the far side ended (FIN as FIN, RST as RST).
-func pipe(pc *rig.PeerConn, back net.Conn) {
+// pipe relays both directions and propagates how the far side ended (FIN as FIN, RST as RST; the reset only
+// when everything relayed before it has been taken, like play).
+func (e *env) pipe(pc *rig.PeerConn, back net.Conn, id string) {
 	front := pc.TCPConn()
 	done := make(chan struct{}, 2)
 	cp := func(dst net.Conn, src io.Reader, dstTCP *net.TCPConn) {
 		defer func() { done <- struct{}{} }()
 		_, err := io.Copy(dst, src)
 		if err != nil && errors.Is(err, syscall.ECONNRESET) {
+			if !rig.Drain(dst, drainWait) {
+				e.rigFailed(id, fmt.Sprintf("upstream relay: %d relayed bytes still unsent before the reset after %v", rig.SendQueue(dst), drainWait))
+			}
 			rig.AbortConn(dst)
 			return
 		}
@@ -516,6 +537,8 @@ func (e *env) proxyFor(c *Case) (string, *rig.Proxy) {
 	switch {
 	case c.Kind == "dialtl":
 		name = latticeProxyName(c)
+	case c.Kind == "certname":
+		name = map[bool]string{false: "mitm", true: "authmitm"}[c.Auth != ""]
 	case c.LogMode != "":
 		name = logProxyName(c.LogMode, c.Server == "handler")
 	case c.Kind == "client" && c.Auth != "":
